@@ -165,11 +165,15 @@ def intLoop (b : GS) : Nat → Nat → List ExtRow → Out (List ExtRow)
     intLoop b n (i + 1) (acc ++ [⟨fb, 0, leDec lo.bytes + two32 * leDec hi.bytes⟩])
 
 /-- `children[i-1].count = children[i].fileBlock - children[i-1].fileBlock`, last one
-    `start + count - fileBlock`, all in uint32 -/
-def fixCounts (start count : Nat) : List ExtRow → List ExtRow
+    `start + count - fileBlock` (`last` = start + count), all in uint32 -/
+def fixCountsAux (last : Nat) : List ExtRow → List ExtRow
   | [] => []
-  | [r] => [{ r with count := sub32 (u32 (start + count)) r.fileBlock }]
-  | r :: r' :: rest => { r with count := sub32 r'.fileBlock r.fileBlock } :: fixCounts start count (r' :: rest)
+  | r :: rest =>
+    { r with count := sub32 (match rest with | [] => last | r' :: _ => r'.fileBlock) r.fileBlock } ::
+      fixCountsAux last rest
+
+def fixCounts (start count : Nat) (rows : List ExtRow) : List ExtRow :=
+  fixCountsAux (u32 (start + count)) rows
 
 def parseExtents (checked : Bool) (b : GS) (start count : Nat) : Out ExtNode :=
   if b.len < 24 then .err else do
@@ -210,14 +214,15 @@ def Bpb.inRange (p : Bpb) : Prop :=
 def rootDirSectors64 (p : Bpb) : Nat := (p.rootEntries * 32 + p.bps - 1) / p.bps
 def metaSectors (p : Bpb) : Nat := p.reserved + p.fatCount * p.spf + rootDirSectors64 p
 
-/-- `CheckGeometry(...)`: true = returns nil.  All arithmetic is uint64 in Go and cannot wrap for
-    in-range fields (`checkGeometry_u64` in the proofs); `size` is the int64 volume size (≤ 0: unknown). -/
+/-- `CheckGeometry(...)`: true = returns nil.  The arithmetic is uint64 in Go: `metaSectors` cannot
+    reach 2^64 for uint32 arguments, its product with the sector size is taken mod 2^64 (it cannot wrap
+    for fields of the on-disk widths: `checkGeometry_u64`); `size` is the int64 volume size (≤ 0: unknown). -/
 def checkGeometry (p : Bpb) (size : Int) : Bool :=
   (p.bps == 512 || p.bps == 1024 || p.bps == 2048 || p.bps == 4096) &&
   !(p.spc == 0 || p.spc > 128 || (p.spc &&& (p.spc - 1)) != 0) &&
   p.reserved != 0 && p.fatCount != 0 && p.spf != 0 &&
   !(p.total != 0 && metaSectors p ≥ p.total) &&
-  !(size > 0 && (metaSectors p * p.bps : Int) > size)
+  !(size > 0 && ((metaSectors p * p.bps % two64 : Nat) : Int) > size)
 
 structure Geom where
   dataStart : Nat
@@ -259,9 +264,15 @@ structure Geom32 where
   bytesPerCluster : Nat
 deriving Repr, DecidableEq
 
-def read32 (checked : Bool) (p : Bpb) (size : Int) : Out Geom32 :=
+/-- `wrapChecked` = the FAT size is also computed in uint64 and refused above 2^30 bytes (the largest
+    FAT a FAT32 volume can have); without it `fatSize` can wrap to 0 and `tableFromBytes` slices
+    `b[0:4]` / `b[4:8]` of the empty buffer (finding fat32-fatsize-wrap) -/
+def read32 (checked wrapChecked : Bool) (p : Bpb) (size : Int) : Out Geom32 :=
   let fatSize := u32 (p.spf * p.bps)
   if checked && !checkGeometry { p with rootEntries := 0 } size then .err else
+  if wrapChecked && p.spf * p.bps > 1073741824 then .err else
+  -- partitionTableBytes := make([]byte, fatSize); tableFromBytes(partitionTableBytes): b[0:4], b[4:8]
+  if fatSize < 8 then .panic else
     let fatPrimaryStart := p.reserved * p.bps
     pure ⟨fatSize, fatPrimaryStart, fatPrimaryStart + fatSize, p.spc * p.bps⟩
 
